@@ -1,11 +1,1402 @@
-//! C06 (not built yet)
-use crate::report::{Disagreement, Run};
-use serde_json::Value;
+//! C06 Computed values match reference spreadsheet semantics (core language).
+//!
+//! Space: every formula of nesting depth 1 over the leaf alphabet L (literals of every kind, references to a data block
+//! D1:D7 holding one cell of every kind, ranges over it, an array literal) for 2 unary and 12 binary operators and the 20
+//! core functions (ternary forms over a reduced alphabet), and every formula of depth 2 whose root has one depth-1 child
+//! over a reduced alphabet. Oracle: the independent evaluator below, written from the spreadsheet rules (coercion in
+//! arithmetic / concatenation / comparison position, blank as 0 / "" / FALSE, number < text < boolean, case-insensitive
+//! text comparison, left operand's error wins, aggregates ignore text and booleans in references but coerce direct
+//! arguments, element-wise broadcasting). Where the rules are not pinned the evaluator answers "unspecified" and nothing is
+//! compared. Values compare by kind; numbers with relative tolerance 1e-12; arrays element-wise against the spilled block.
 
-pub fn run(run: &mut Run) {
-    run.machinery_errors.push("C06: check not built yet".into());
+use crate::cellval::{cell_shape, cell_val, Val};
+use crate::env::guarded;
+use crate::report::{Disagreement, Run};
+use ironcalc_base::Model;
+use serde_json::{json, Value};
+use std::collections::BTreeSet;
+
+// ---------------------------------------------------------------- values
+
+#[derive(Clone, Debug, PartialEq)]
+pub enum V {
+    Num(f64),
+    Str(String),
+    Bool(bool),
+    /// a specific error, by its spelling
+    Err(&'static str),
+    /// some error, kind not pinned by the rules (e.g. overflow, domain error)
+    ErrAny,
+    Blank,
 }
 
-pub fn replay(_case: &Value) -> Vec<Disagreement> {
-    vec![]
+impl V {
+    fn is_nonfinite(&self) -> bool {
+        matches!(self, V::Num(n) if !n.is_finite())
+    }
+    fn is_err(&self) -> bool {
+        matches!(self, V::Err(_) | V::ErrAny)
+    }
+    fn kind(&self) -> String {
+        match self {
+            V::Num(_) => "num".into(),
+            V::Str(_) => "str".into(),
+            V::Bool(_) => "bool".into(),
+            V::Err(e) => (*e).into(),
+            V::ErrAny => "error".into(),
+            V::Blank => "blank".into(),
+        }
+    }
+    fn show(&self) -> String {
+        match self {
+            V::Num(n) => format!("{:?}", n),
+            V::Str(s) => format!("{:?}", s),
+            V::Bool(b) => (if *b { "TRUE" } else { "FALSE" }).into(),
+            V::Err(e) => (*e).into(),
+            V::ErrAny => "<some error>".into(),
+            V::Blank => "<blank>".into(),
+        }
+    }
+}
+
+/// what an expression denotes before it is used
+#[derive(Clone, Debug)]
+enum O {
+    /// a computed or literal scalar
+    S(V),
+    /// a reference to one cell
+    Cell(V),
+    /// a reference to several cells
+    Range(Vec<Vec<V>>),
+    /// an array literal or a computed array
+    Arr(Vec<Vec<V>>),
+    /// a scalar that came out of IF / IFERROR whose chosen branch was a cell reference: whether the consumer treats it as
+    /// a reference or as a value is not pinned
+    Amb(V),
+}
+
+type Unspec = String;
+type R<T> = Result<T, Unspec>;
+
+fn unspec<T>(why: &str) -> R<T> {
+    Err(why.to_string())
+}
+
+// ---------------------------------------------------------------- terms
+
+#[derive(Clone, Debug)]
+pub enum T {
+    Leaf(usize),
+    Un(&'static str, Box<T>),
+    Bin(&'static str, Box<T>, Box<T>),
+    Fn(&'static str, Vec<T>),
+}
+
+/// the data block: D1 number, D2 numeric text, D3 boolean, D4 blank, D5 error, D6 text, D7 zero
+const DATA_INPUT: [&str; 7] = ["2", "'3", "TRUE", "", "#DIV/0!", "abc", "0"];
+fn data(row: usize) -> V {
+    match row {
+        1 => V::Num(2.0),
+        2 => V::Str("3".into()),
+        3 => V::Bool(true),
+        4 => V::Blank,
+        5 => V::Err("#DIV/0!"),
+        6 => V::Str("abc".into()),
+        _ => V::Num(0.0),
+    }
+}
+
+/// leaf alphabet L (text, class for the sig)
+pub const LEAVES: [(&str, &str); 22] = [
+    ("0", "num"),
+    ("1", "num"),
+    ("-1.5", "num"),
+    ("\"\"", "str:empty"),
+    ("\"a\"", "str:text"),
+    ("\"1\"", "str:numeric"),
+    ("\"TRUE\"", "str:bool"),
+    ("TRUE", "bool"),
+    ("FALSE", "bool"),
+    ("#N/A", "err"),
+    ("#DIV/0!", "err"),
+    ("D1", "ref:num"),
+    ("D2", "ref:numeric-text"),
+    ("D3", "ref:bool"),
+    ("D4", "ref:blank"),
+    ("D5", "ref:err"),
+    ("D6", "ref:text"),
+    ("D7", "ref:zero"),
+    ("D1:D3", "range"),
+    ("D3:D4", "range"),
+    ("D1:D7", "range:with-error"),
+    ("{1,2}", "array"),
+];
+/// reduced alphabets (indices into LEAVES)
+const L_THOROUGH: [usize; 9] = [1, 2, 5, 4, 7, 9, 14, 12, 18];
+const L_QUICK: [usize; 6] = [1, 4, 7, 9, 14, 18];
+
+fn leaf_operand(i: usize) -> O {
+    match i {
+        0 => O::S(V::Num(0.0)),
+        1 => O::S(V::Num(1.0)),
+        2 => O::S(V::Num(-1.5)),
+        3 => O::S(V::Str("".into())),
+        4 => O::S(V::Str("a".into())),
+        5 => O::S(V::Str("1".into())),
+        6 => O::S(V::Str("TRUE".into())),
+        7 => O::S(V::Bool(true)),
+        8 => O::S(V::Bool(false)),
+        9 => O::S(V::Err("#N/A")),
+        10 => O::S(V::Err("#DIV/0!")),
+        11..=17 => O::Cell(data(i - 10)),
+        18 => O::Range((1..=3).map(|r| vec![data(r)]).collect()),
+        19 => O::Range((3..=4).map(|r| vec![data(r)]).collect()),
+        20 => O::Range((1..=7).map(|r| vec![data(r)]).collect()),
+        _ => O::Arr(vec![vec![V::Num(1.0), V::Num(2.0)]]),
+    }
+}
+
+pub const UN_OPS: [&str; 2] = ["-", "%"];
+pub const BIN_OPS: [&str; 12] = ["+", "-", "*", "/", "^", "&", "=", "<>", "<", ">", "<=", ">="];
+/// (name, allowed arities)
+pub const FUNCS: [(&str, &[usize]); 18] = [
+    ("IF", &[2, 3]),
+    ("AND", &[1, 2, 3]),
+    ("OR", &[1, 2, 3]),
+    ("NOT", &[1]),
+    ("SUM", &[1, 2, 3]),
+    ("MIN", &[1, 2]),
+    ("MAX", &[1, 2]),
+    ("COUNT", &[1, 2]),
+    ("COUNTA", &[1, 2]),
+    ("AVERAGE", &[1, 2]),
+    ("ABS", &[1]),
+    ("ROUND", &[2]),
+    ("LEN", &[1]),
+    ("CONCAT", &[1, 2]),
+    ("ISNUMBER", &[1]),
+    ("ISTEXT", &[1]),
+    ("ISBLANK", &[1]),
+    ("IFERROR", &[2]),
+];
+
+impl T {
+    pub fn text(&self) -> String {
+        match self {
+            T::Leaf(i) => LEAVES[*i].0.to_string(),
+            T::Un("%", x) => format!("{}%", x.paren()),
+            T::Un(op, x) => format!("{}{}", op, x.paren()),
+            T::Bin(op, l, r) => format!("{}{}{}", l.paren(), op, r.paren()),
+            T::Fn(name, args) => format!("{}({})", name, args.iter().map(|a| a.text()).collect::<Vec<_>>().join(",")),
+        }
+    }
+    fn paren(&self) -> String {
+        match self {
+            T::Leaf(i) if !LEAVES[*i].0.starts_with('-') => self.text(),
+            T::Fn(..) => self.text(),
+            _ => format!("({})", self.text()),
+        }
+    }
+    fn to_json(&self) -> Value {
+        match self {
+            T::Leaf(i) => json!(i),
+            T::Un(op, x) => json!({"un": op, "x": x.to_json()}),
+            T::Bin(op, l, r) => json!({"bin": op, "l": l.to_json(), "r": r.to_json()}),
+            T::Fn(n, a) => json!({"fn": n, "args": a.iter().map(|x| x.to_json()).collect::<Vec<_>>()}),
+        }
+    }
+    fn from_json(v: &Value) -> Option<T> {
+        if let Some(i) = v.as_u64() {
+            return if (i as usize) < LEAVES.len() { Some(T::Leaf(i as usize)) } else { None };
+        }
+        if let Some(op) = v["un"].as_str() {
+            let op = UN_OPS.iter().find(|o| **o == op)?;
+            return Some(T::Un(op, Box::new(T::from_json(&v["x"])?)));
+        }
+        if let Some(op) = v["bin"].as_str() {
+            let op = BIN_OPS.iter().find(|o| **o == op)?;
+            return Some(T::Bin(op, Box::new(T::from_json(&v["l"])?), Box::new(T::from_json(&v["r"])?)));
+        }
+        if let Some(n) = v["fn"].as_str() {
+            let f = FUNCS.iter().find(|f| f.0 == n)?;
+            let args: Option<Vec<T>> = v["args"].as_array()?.iter().map(T::from_json).collect();
+            return Some(T::Fn(f.0, args?));
+        }
+        None
+    }
+    fn children(&self) -> Vec<&T> {
+        match self {
+            T::Leaf(_) => vec![],
+            T::Un(_, x) => vec![x],
+            T::Bin(_, l, r) => vec![l, r],
+            T::Fn(_, a) => a.iter().collect(),
+        }
+    }
+    fn head(&self) -> String {
+        match self {
+            T::Leaf(i) => format!("leaf {}", LEAVES[*i].1),
+            T::Un(op, _) => format!("unary {}", op),
+            T::Bin(op, _, _) => format!("operator {}", op),
+            T::Fn(n, _) => n.to_string(),
+        }
+    }
+}
+
+// ---------------------------------------------------------------- known deviations of the engine, as switches
+//
+// The reference evaluator below implements the spreadsheet rules. Each switch makes it imitate ONE specific way in which
+// the engine is known to deviate; a disagreement that disappears when a minimal set of switches is on is reported under the
+// names of those switches (a narrow, semantic signature), anything else under a generic signature.
+
+const D_COLLAPSE: u32 = 1; // array (op) failing scalar -> one scalar error instead of an array of errors
+const D_SHORT: u32 = 2; // AND / OR stop at the first deciding value: later errors are not propagated
+const D_LOGTEXT: u32 = 4; // AND / OR ignore direct text that is not TRUE/FALSE instead of #VALUE!
+const D_MINMAX: u32 = 8; // MIN / MAX ignore direct booleans and text (no coercion, no #VALUE!)
+const D_CONCATARR: u32 = 16; // CONCAT of an array value is #N/IMPL!
+const D_COUNTARR: u32 = 32; // COUNT ignores array values
+const D_UNARR: u32 = 64; // unary minus / percent of a range or array is #N/IMPL!
+const D_ARRINF: u32 = 128; // a non-finite arithmetic result stays a number; only a scalar cell result becomes #NUM! (see C08)
+const D_TEXT17: u32 = 256; // number -> text uses the shortest round-trip digits instead of 15 significant digits
+const D_NEGZERO: u32 = 512; // negative zero becomes the text "-0"
+const D_CMPERR: u32 = 1024; // element-wise comparison orders error elements instead of propagating them
+pub const DEVIATIONS: [(u32, &str); 11] = [
+    (D_COLLAPSE, "array operation with a failing scalar operand gives one error instead of an array of errors"),
+    (D_SHORT, "AND/OR short-circuit: errors after the deciding value are not propagated"),
+    (D_LOGTEXT, "AND/OR ignore direct text that is not TRUE/FALSE instead of #VALUE!"),
+    (D_MINMAX, "MIN/MAX ignore direct booleans and text instead of coercing them"),
+    (D_CONCATARR, "CONCAT of an array value is #N/IMPL!"),
+    (D_COUNTARR, "COUNT ignores array values"),
+    (D_UNARR, "unary minus / percent of a range or array is #N/IMPL!"),
+    (D_ARRINF, "a non-finite arithmetic result is used as a number (only a scalar cell result becomes #NUM!)"),
+    (D_TEXT17, "number to text uses 17 significant digits instead of 15"),
+    (D_NEGZERO, "negative zero becomes the text -0"),
+    (D_CMPERR, "element-wise comparison orders error elements instead of propagating them"),
+];
+
+thread_local! {
+    static DEV: std::cell::Cell<u32> = const { std::cell::Cell::new(0) };
+}
+fn dev(f: u32) -> bool {
+    DEV.with(|d| d.get() & f != 0)
+}
+
+// ---------------------------------------------------------------- the reference evaluator
+
+/// General-format text of a number, or None where the rendering is not pinned (very large / small magnitudes).
+fn num_to_text(n: f64) -> R<String> {
+    if n == 0.0 {
+        return Ok(if dev(D_NEGZERO) && n.is_sign_negative() { "-0".into() } else { "0".into() });
+    }
+    if !n.is_finite() {
+        if dev(D_ARRINF) {
+            return Ok(format!("{}", n));
+        }
+        return unspec("text of a non-finite number");
+    }
+    let a = n.abs();
+    if !(1e-4..1e11).contains(&a) {
+        return unspec("text of a very large or very small number");
+    }
+    if dev(D_TEXT17) {
+        return Ok(format!("{}", n));
+    }
+    // 15 significant digits, trailing zeros removed
+    let exp = a.log10().floor() as i32;
+    let decimals = (14 - exp).max(0) as usize;
+    let mut s = format!("{:.*}", decimals, n);
+    if s.contains('.') {
+        while s.ends_with('0') {
+            s.pop();
+        }
+        if s.ends_with('.') {
+            s.pop();
+        }
+    }
+    if s == "-0" {
+        s = "0".into();
+    }
+    Ok(s)
+}
+
+/// Ok(Ok(number)) / Ok(Err(error value)) / Err(unspecified)
+fn text_to_num(s: &str) -> R<Result<f64, V>> {
+    let t = s.trim();
+    if t.is_empty() {
+        return Ok(Err(V::Err("#VALUE!")));
+    }
+    let plain = {
+        let b = t.as_bytes();
+        let mut i = 0;
+        if i < b.len() && (b[i] == b'+' || b[i] == b'-') {
+            i += 1;
+        }
+        let d0 = i;
+        while i < b.len() && b[i].is_ascii_digit() {
+            i += 1;
+        }
+        let mut digits = i - d0;
+        if i < b.len() && b[i] == b'.' {
+            i += 1;
+            let f0 = i;
+            while i < b.len() && b[i].is_ascii_digit() {
+                i += 1;
+            }
+            digits += i - f0;
+        }
+        digits > 0 && i == b.len()
+    };
+    if plain && t == s {
+        return match t.parse::<f64>() {
+            Ok(f) => Ok(Ok(f)),
+            Err(_) => unspec("number text"),
+        };
+    }
+    if !t.chars().any(|c| c.is_ascii_digit()) && t.chars().all(|c| c.is_ascii_alphabetic()) {
+        return Ok(Err(V::Err("#VALUE!")));
+    }
+    unspec("text that may or may not be read as a number (date, time, percent, currency, exponent ...)")
+}
+
+fn to_num(v: &V) -> R<Result<f64, V>> {
+    Ok(match v {
+        V::Num(n) => Ok(*n),
+        V::Bool(b) => Ok(if *b { 1.0 } else { 0.0 }),
+        V::Blank => Ok(0.0),
+        V::Str(s) => return text_to_num(s),
+        e => Err(e.clone()),
+    })
+}
+
+fn to_text(v: &V) -> R<Result<String, V>> {
+    Ok(match v {
+        V::Num(n) => Ok(num_to_text(*n)?),
+        V::Bool(b) => Ok((if *b { "TRUE" } else { "FALSE" }).to_string()),
+        V::Blank => Ok(String::new()),
+        V::Str(s) => Ok(s.clone()),
+        e => Err(e.clone()),
+    })
+}
+
+fn to_bool(v: &V) -> R<Result<bool, V>> {
+    Ok(match v {
+        V::Num(n) => Ok(*n != 0.0),
+        V::Bool(b) => Ok(*b),
+        V::Blank => Ok(false),
+        V::Str(s) => {
+            if s.eq_ignore_ascii_case("true") {
+                Ok(true)
+            } else if s.eq_ignore_ascii_case("false") {
+                Ok(false)
+            } else {
+                Err(V::Err("#VALUE!"))
+            }
+        }
+        e => Err(e.clone()),
+    })
+}
+
+fn finite(n: f64) -> V {
+    if n.is_finite() || dev(D_ARRINF) {
+        V::Num(n)
+    } else {
+        V::ErrAny
+    }
+}
+
+fn arith(op: &str, a: &V, b: &V) -> R<V> {
+    let x = match to_num(a)? {
+        Ok(x) => x,
+        Err(e) => return Ok(e),
+    };
+    let y = match to_num(b)? {
+        Ok(y) => y,
+        Err(e) => return Ok(e),
+    };
+    Ok(match op {
+        "+" => finite(x + y),
+        "-" => finite(x - y),
+        "*" => finite(x * y),
+        "/" => {
+            if y == 0.0 {
+                V::Err("#DIV/0!")
+            } else {
+                finite(x / y)
+            }
+        }
+        _ => {
+            if x == 0.0 && y == 0.0 {
+                return unspec("0^0");
+            }
+            if x == 0.0 && y < 0.0 {
+                if dev(D_ARRINF) {
+                    V::Num(x.powf(y))
+                } else {
+                    V::ErrAny
+                }
+            } else if x < 0.0 && y.fract() != 0.0 {
+                return unspec("negative base with fractional exponent");
+            } else {
+                finite(x.powf(y))
+            }
+        }
+    })
+}
+
+fn concat(a: &V, b: &V) -> R<V> {
+    let x = match to_text(a)? {
+        Ok(x) => x,
+        Err(e) => return Ok(e),
+    };
+    let y = match to_text(b)? {
+        Ok(y) => y,
+        Err(e) => return Ok(e),
+    };
+    Ok(V::Str(format!("{}{}", x, y)))
+}
+
+/// -1 / 0 / 1 by the cross-type order number < text < boolean; blank adapts to the other side
+fn order(a: &V, b: &V) -> R<i32> {
+    let (a, b) = match (a, b) {
+        (V::Blank, V::Blank) => return Ok(0),
+        (V::Blank, V::Num(_)) => (V::Num(0.0), b.clone()),
+        (V::Blank, V::Str(_)) => (V::Str(String::new()), b.clone()),
+        (V::Blank, V::Bool(_)) => (V::Bool(false), b.clone()),
+        (V::Num(_), V::Blank) => (a.clone(), V::Num(0.0)),
+        (V::Str(_), V::Blank) => (a.clone(), V::Str(String::new())),
+        (V::Bool(_), V::Blank) => (a.clone(), V::Bool(false)),
+        _ => (a.clone(), b.clone()),
+    };
+    let rank = |v: &V| match v {
+        V::Num(_) => 0,
+        V::Str(_) => 1,
+        _ => 2,
+    };
+    if rank(&a) != rank(&b) {
+        return Ok(if rank(&a) < rank(&b) { -1 } else { 1 });
+    }
+    match (&a, &b) {
+        (V::Num(x), V::Num(y)) => {
+            if x == y {
+                Ok(0)
+            } else if x.is_finite() && y.is_finite() && (x - y).abs() <= 1e-12 * x.abs().max(y.abs()) {
+                unspec("numbers equal within display precision")
+            } else {
+                Ok(if x < y { -1 } else { 1 })
+            }
+        }
+        (V::Str(x), V::Str(y)) => {
+            if !x.is_ascii() || !y.is_ascii() {
+                return unspec("non-ASCII text comparison");
+            }
+            let (x, y) = (x.to_ascii_uppercase(), y.to_ascii_uppercase());
+            if x != y && !(x.chars().all(|c| c.is_ascii_alphanumeric()) && y.chars().all(|c| c.is_ascii_alphanumeric())) {
+                return unspec("collation of punctuation");
+            }
+            Ok(match x.cmp(&y) {
+                std::cmp::Ordering::Less => -1,
+                std::cmp::Ordering::Equal => 0,
+                std::cmp::Ordering::Greater => 1,
+            })
+        }
+        (V::Bool(x), V::Bool(y)) => Ok((*x as i32) - (*y as i32)),
+        _ => unspec("comparison"),
+    }
+}
+
+fn compare(op: &str, a: &V, b: &V) -> R<V> {
+    if a.is_err() {
+        return Ok(a.clone());
+    }
+    if b.is_err() {
+        return Ok(b.clone());
+    }
+    let c = order(a, b)?;
+    Ok(V::Bool(match op {
+        "=" => c == 0,
+        "<>" => c != 0,
+        "<" => c < 0,
+        ">" => c > 0,
+        "<=" => c <= 0,
+        _ => c >= 0,
+    }))
+}
+
+/// imitation of D_CMPERR: an error element sorts after every value (two errors: only equal kinds are pinned here)
+fn compare_ordering_errors(op: &str, a: &V, b: &V) -> R<V> {
+    let c = match (a.is_err(), b.is_err()) {
+        (false, false) => return compare(op, a, b),
+        (true, true) => {
+            if a == b && *a != V::ErrAny {
+                0
+            } else {
+                return unspec("order of two different errors");
+            }
+        }
+        (true, false) => 1,
+        (false, true) => -1,
+    };
+    Ok(V::Bool(match op {
+        "=" => c == 0,
+        "<>" => c != 0,
+        "<" => c < 0,
+        ">" => c > 0,
+        "<=" => c <= 0,
+        _ => c >= 0,
+    }))
+}
+
+fn binop(op: &str, a: &V, b: &V) -> R<V> {
+    match op {
+        "+" | "-" | "*" | "/" | "^" => arith(op, a, b),
+        "&" => concat(a, b),
+        _ => compare(op, a, b),
+    }
+}
+
+fn unop(op: &str, a: &V) -> R<V> {
+    let x = match to_num(a)? {
+        Ok(x) => x,
+        Err(e) => return Ok(e),
+    };
+    Ok(match op {
+        "-" => V::Num(-x),
+        _ => V::Num(x / 100.0),
+    })
+}
+
+fn scalar(o: &O) -> Option<&V> {
+    match o {
+        O::S(v) | O::Cell(v) | O::Amb(v) => Some(v),
+        _ => None,
+    }
+}
+
+fn grid(o: &O) -> Option<&Vec<Vec<V>>> {
+    match o {
+        O::Range(g) | O::Arr(g) => Some(g),
+        _ => None,
+    }
+}
+
+fn lift2(a: &O, b: &O, f: &dyn Fn(&V, &V) -> R<V>) -> R<O> {
+    match (scalar(a), scalar(b)) {
+        (Some(x), Some(y)) => Ok(O::S(f(x, y)?)),
+        _ => {
+            let one = |o: &O| -> Vec<Vec<V>> {
+                match grid(o) {
+                    Some(g) => g.clone(),
+                    None => vec![vec![scalar(o).cloned().unwrap_or(V::Blank)]],
+                }
+            };
+            let (ga, gb) = (one(a), one(b));
+            let (ra, ca, rb, cb) = (ga.len(), ga[0].len(), gb.len(), gb[0].len());
+            if (ra != rb && ra != 1 && rb != 1) || (ca != cb && ca != 1 && cb != 1) {
+                return unspec("array operands of different sizes");
+            }
+            let (rows, cols) = (ra.max(rb), ca.max(cb));
+            let mut out = vec![];
+            for i in 0..rows {
+                let mut row = vec![];
+                for j in 0..cols {
+                    let x = &ga[if ra == 1 { 0 } else { i }][if ca == 1 { 0 } else { j }];
+                    let y = &gb[if rb == 1 { 0 } else { i }][if cb == 1 { 0 } else { j }];
+                    row.push(f(x, y)?);
+                }
+                out.push(row);
+            }
+            Ok(O::Arr(out))
+        }
+    }
+}
+
+fn lift1(a: &O, f: &dyn Fn(&V) -> R<V>) -> R<O> {
+    match scalar(a) {
+        Some(x) => Ok(O::S(f(x)?)),
+        None => {
+            let g = grid(a).cloned().unwrap_or_default();
+            let mut out = vec![];
+            for row in g {
+                let mut r = vec![];
+                for v in row {
+                    r.push(f(&v)?);
+                }
+                out.push(r);
+            }
+            Ok(O::Arr(out))
+        }
+    }
+}
+
+/// items of an aggregate's argument list, in order
+enum Item {
+    Direct(V),
+    Ref(V),
+    ArrEl(V),
+    Amb(V),
+}
+
+fn items(args: &[O]) -> Vec<Item> {
+    let mut out = vec![];
+    for a in args {
+        match a {
+            O::S(v) => out.push(Item::Direct(v.clone())),
+            O::Cell(v) => out.push(Item::Ref(v.clone())),
+            O::Amb(v) => out.push(Item::Amb(v.clone())),
+            O::Range(g) => out.extend(g.iter().flatten().map(|v| Item::Ref(v.clone()))),
+            O::Arr(g) => out.extend(g.iter().flatten().map(|v| Item::ArrEl(v.clone()))),
+        }
+    }
+    out
+}
+
+/// numbers an aggregate (SUM, MIN, MAX, AVERAGE) sees, or the error it returns
+fn numbers(name: &str, args: &[O]) -> R<Result<Vec<f64>, V>> {
+    let lenient = dev(D_MINMAX) && (name == "MIN" || name == "MAX");
+    let mut out = vec![];
+    for it in items(args) {
+        match it {
+            // the documentation of AVERAGE contradicts itself about logical values and numeric text typed as arguments
+            Item::Direct(V::Bool(_)) | Item::Direct(V::Str(_)) | Item::ArrEl(V::Bool(_)) if name == "AVERAGE" => {
+                return unspec("AVERAGE over logical values or text given directly or inside an array")
+            }
+            Item::Direct(v) if lenient => match v {
+                V::Num(n) => out.push(n),
+                e if e.is_err() => return Ok(Err(e)),
+                _ => {}
+            },
+            Item::Direct(v) => match v {
+                V::Blank => out.push(0.0),
+                V::Str(s) => match text_to_num(&s)? {
+                    Ok(n) => out.push(n),
+                    Err(e) => return Ok(Err(e)),
+                },
+                other => match to_num(&other)? {
+                    Ok(n) => out.push(n),
+                    Err(e) => return Ok(Err(e)),
+                },
+            },
+            Item::Ref(v) | Item::ArrEl(v) => match v {
+                V::Num(n) => out.push(n),
+                e if e.is_err() => return Ok(Err(e)),
+                _ => {}
+            },
+            Item::Amb(v) => match v {
+                V::Num(n) => out.push(n),
+                e if e.is_err() => return Ok(Err(e)),
+                _ if lenient => {}
+                _ => return unspec("IF/IFERROR result that may be a reference, used in an aggregate"),
+            },
+        }
+    }
+    Ok(Ok(out))
+}
+
+fn logicals(name: &str, args: &[O]) -> R<Result<Vec<bool>, V>> {
+    let mut out = vec![];
+    let mut pending: Option<V> = None;
+    let short = dev(D_SHORT);
+    for it in items(args) {
+        let r: Result<Option<bool>, V> = match it {
+            Item::Direct(v) => match v {
+                V::Blank => return unspec("empty direct argument of AND/OR"),
+                V::Str(s) if dev(D_LOGTEXT) => Ok(to_bool(&V::Str(s))?.ok()),
+                other => to_bool(&other)?.map(Some),
+            },
+            Item::Ref(v) | Item::ArrEl(v) => match v {
+                V::Num(n) => Ok(Some(n != 0.0)),
+                V::Bool(b) => Ok(Some(b)),
+                e if e.is_err() => Err(e),
+                _ => Ok(None),
+            },
+            Item::Amb(v) => match v {
+                V::Num(n) => Ok(Some(n != 0.0)),
+                V::Bool(b) => Ok(Some(b)),
+                e if e.is_err() => Err(e),
+                _ => return unspec("IF/IFERROR result that may be a reference, used in AND/OR"),
+            },
+        };
+        match r {
+            Ok(Some(b)) => {
+                out.push(b);
+                if short && pending.is_none() && ((name == "AND" && !b) || (name == "OR" && b)) {
+                    return Ok(Ok(out));
+                }
+            }
+            Ok(None) => {}
+            Err(e) => {
+                if short {
+                    return Ok(Err(e));
+                }
+                match &pending {
+                    None => pending = Some(e),
+                    Some(p) if *p == e => {}
+                    // a coercion error mixed with a different propagated one: which wins is not pinned
+                    Some(_) => pending = Some(V::ErrAny),
+                }
+            }
+        }
+    }
+    if let Some(e) = pending {
+        return Ok(Err(e));
+    }
+    if out.is_empty() {
+        return Ok(Err(V::Err("#VALUE!")));
+    }
+    Ok(Ok(out))
+}
+
+fn round_half_away(x: f64, digits: f64) -> R<V> {
+    let d = digits.trunc();
+    if d.abs() > 12.0 {
+        return unspec("ROUND with many digits");
+    }
+    let m = 10f64.powi(d as i32);
+    let y = x * m;
+    if !y.is_finite() {
+        return unspec("ROUND overflow");
+    }
+    let frac = (y - y.trunc()).abs();
+    if (frac - 0.5).abs() < 1e-7 && frac != 0.5 {
+        return unspec("ROUND of a near tie");
+    }
+    let r = if frac >= 0.5 { y.trunc() + y.signum() } else { y.trunc() };
+    Ok(V::Num(r / m))
+}
+
+fn eval(t: &T) -> R<O> {
+    match t {
+        T::Leaf(i) => Ok(leaf_operand(*i)),
+        T::Un(op, x) => {
+            let o = eval(x)?;
+            if dev(D_UNARR) && grid(&o).is_some() {
+                return Ok(O::S(V::Err("#N/IMPL!")));
+            }
+            lift1(&o, &|v| unop(op, v))
+        }
+        T::Bin(op, l, r) => {
+            let a = eval(l)?;
+            let b = eval(r)?;
+            let array_ctx = grid(&a).is_some() || grid(&b).is_some();
+            if array_ctx && dev(D_COLLAPSE) {
+                for o in [&a, &b] {
+                    if let Some(v) = scalar(o) {
+                        let fail = match *op {
+                            "+" | "-" | "*" | "/" | "^" => to_num(v)?.err(),
+                            _ => if v.is_err() { Some(v.clone()) } else { None },
+                        };
+                        if let Some(e) = fail {
+                            return Ok(O::S(e));
+                        }
+                    }
+                }
+            }
+            let is_cmp = !matches!(*op, "+" | "-" | "*" | "/" | "^" | "&");
+            if array_ctx && is_cmp && dev(D_CMPERR) {
+                return lift2(&a, &b, &|x, y| compare_ordering_errors(op, x, y));
+            }
+            lift2(&a, &b, &|x, y| binop(op, x, y))
+        }
+        T::Fn(name, args) => eval_fn(name, args),
+    }
+}
+
+fn scalar_arg(o: &O, what: &str) -> R<V> {
+    match scalar(o) {
+        Some(v) => Ok(v.clone()),
+        None => unspec(&format!("{} with a range or array argument", what)),
+    }
+}
+
+fn eval_fn(name: &str, args: &[T]) -> R<O> {
+    match name {
+        "IF" => {
+            let c = scalar_arg(&eval(&args[0])?, "IF")?;
+            let b = match to_bool(&c)? {
+                Ok(b) => b,
+                Err(e) => return Ok(O::S(e)),
+            };
+            let chosen = if b { args.get(1) } else { args.get(2) };
+            match chosen {
+                None => Ok(O::S(V::Bool(false))),
+                Some(t) => match eval(t)? {
+                    O::Cell(v) | O::Amb(v) => Ok(O::Amb(v)),
+                    O::S(v) => Ok(O::S(v)),
+                    // only while imitating a deviation (the condition is an error by the rules): the engine returns the range
+                    other if DEV.with(|d| d.get()) != 0 => Ok(other),
+                    _ => unspec("IF returning a range or array"),
+                },
+            }
+        }
+        "IFERROR" => {
+            let x = eval(&args[0])?;
+            let v = scalar_arg(&x, "IFERROR")?;
+            let (res, was_ref) = if v.is_err() {
+                let y = eval(&args[1])?;
+                (scalar_arg(&y, "IFERROR")?, matches!(y, O::Cell(_) | O::Amb(_)))
+            } else {
+                (v, matches!(x, O::Cell(_) | O::Amb(_)))
+            };
+            if res == V::Blank {
+                return unspec("IFERROR over an empty cell");
+            }
+            Ok(if was_ref { O::Amb(res) } else { O::S(res) })
+        }
+        "AND" | "OR" => {
+            let os: Vec<O> = args.iter().map(eval).collect::<R<Vec<O>>>()?;
+            Ok(O::S(match logicals(name, &os)? {
+                Err(e) => e,
+                Ok(bs) => V::Bool(if name == "AND" { bs.iter().all(|b| *b) } else { bs.iter().any(|b| *b) }),
+            }))
+        }
+        "NOT" => {
+            let v = scalar_arg(&eval(&args[0])?, "NOT")?;
+            Ok(O::S(match to_bool(&v)? {
+                Ok(b) => V::Bool(!b),
+                Err(e) => e,
+            }))
+        }
+        "SUM" | "MIN" | "MAX" | "AVERAGE" => {
+            let os: Vec<O> = args.iter().map(eval).collect::<R<Vec<O>>>()?;
+            Ok(O::S(match numbers(name, &os)? {
+                Err(e) => e,
+                Ok(ns) => match name {
+                    "SUM" => finite(ns.iter().sum()),
+                    // (the engine turns a non-finite MIN/MAX into 0: part of the non-finite deviation)
+                    "MIN" => V::Num(ns.iter().cloned().fold(f64::INFINITY, f64::min)).pipe(|v| if ns.is_empty() || (dev(D_ARRINF) && v.is_nonfinite()) { V::Num(0.0) } else { v }),
+                    "MAX" => V::Num(ns.iter().cloned().fold(f64::NEG_INFINITY, f64::max)).pipe(|v| if ns.is_empty() || (dev(D_ARRINF) && v.is_nonfinite()) { V::Num(0.0) } else { v }),
+                    _ => {
+                        if ns.is_empty() {
+                            V::Err("#DIV/0!")
+                        } else {
+                            finite(ns.iter().sum::<f64>() / ns.len() as f64)
+                        }
+                    }
+                },
+            }))
+        }
+        "COUNT" => {
+            let os: Vec<O> = args.iter().map(eval).collect::<R<Vec<O>>>()?;
+            let mut n = 0;
+            for it in items(&os) {
+                match it {
+                    Item::Direct(v) => match v {
+                        V::Num(_) | V::Bool(_) => n += 1,
+                        V::Str(s) => {
+                            if let Ok(_) = text_to_num(&s)? {
+                                n += 1
+                            }
+                        }
+                        V::Blank => return unspec("empty direct argument of COUNT"),
+                        _ => {}
+                    },
+                    Item::ArrEl(_) if dev(D_COUNTARR) => {}
+                    Item::Ref(v) | Item::ArrEl(v) => {
+                        if matches!(v, V::Num(_)) {
+                            n += 1
+                        }
+                    }
+                    Item::Amb(v) => match v {
+                        V::Num(_) => n += 1,
+                        V::Err(_) | V::ErrAny => {}
+                        _ => return unspec("IF/IFERROR result that may be a reference, used in COUNT"),
+                    },
+                }
+            }
+            Ok(O::S(V::Num(n as f64)))
+        }
+        "COUNTA" => {
+            let os: Vec<O> = args.iter().map(eval).collect::<R<Vec<O>>>()?;
+            let mut n = 0;
+            for it in items(&os) {
+                match it {
+                    Item::Direct(V::Blank) => return unspec("empty direct argument of COUNTA"),
+                    Item::Direct(_) | Item::ArrEl(_) => n += 1,
+                    Item::Ref(v) => {
+                        if v != V::Blank {
+                            n += 1
+                        }
+                    }
+                    Item::Amb(v) => {
+                        if v == V::Blank {
+                            return unspec("IF/IFERROR result that may be an empty reference, used in COUNTA");
+                        }
+                        n += 1
+                    }
+                }
+            }
+            Ok(O::S(V::Num(n as f64)))
+        }
+        "ABS" => {
+            let v = scalar_arg(&eval(&args[0])?, "ABS")?;
+            Ok(O::S(match to_num(&v)? {
+                Ok(n) => V::Num(n.abs()),
+                Err(e) => e,
+            }))
+        }
+        "ROUND" => {
+            let x = scalar_arg(&eval(&args[0])?, "ROUND")?;
+            let d = scalar_arg(&eval(&args[1])?, "ROUND")?;
+            let xn = match to_num(&x)? {
+                Ok(n) => n,
+                Err(e) => return Ok(O::S(e)),
+            };
+            let dn = match to_num(&d)? {
+                Ok(n) => n,
+                Err(e) => return Ok(O::S(e)),
+            };
+            Ok(O::S(round_half_away(xn, dn)?))
+        }
+        "LEN" => {
+            let v = scalar_arg(&eval(&args[0])?, "LEN")?;
+            Ok(O::S(match to_text(&v)? {
+                Ok(s) => V::Num(s.encode_utf16().count() as f64),
+                Err(e) => e,
+            }))
+        }
+        "CONCAT" => {
+            let os: Vec<O> = args.iter().map(eval).collect::<R<Vec<O>>>()?;
+            let mut s = String::new();
+            if dev(D_CONCATARR) {
+                // argument by argument: an error returns first, an array value is #N/IMPL!
+                for o in &os {
+                    match o {
+                        O::Arr(_) => return Ok(O::S(V::Err("#N/IMPL!"))),
+                        O::Range(g) => {
+                            if let Some(e) = g.iter().flatten().find(|v| v.is_err()) {
+                                return Ok(O::S(e.clone()));
+                            }
+                        }
+                        other => {
+                            if let Some(v) = scalar(other) {
+                                if v.is_err() {
+                                    return Ok(O::S(v.clone()));
+                                }
+                            }
+                        }
+                    }
+                }
+            }
+            for it in items(&os) {
+                let v = match it {
+                    Item::Direct(v) | Item::Ref(v) | Item::ArrEl(v) | Item::Amb(v) => v,
+                };
+                match to_text(&v)? {
+                    Ok(t) => s.push_str(&t),
+                    Err(e) => return Ok(O::S(e)),
+                }
+            }
+            Ok(O::S(V::Str(s)))
+        }
+        "ISNUMBER" | "ISTEXT" => {
+            let v = scalar_arg(&eval(&args[0])?, name)?;
+            Ok(O::S(V::Bool(if name == "ISNUMBER" { matches!(v, V::Num(_)) } else { matches!(v, V::Str(_)) })))
+        }
+        "ISBLANK" => match eval(&args[0])? {
+            O::Cell(v) => Ok(O::S(V::Bool(v == V::Blank))),
+            O::S(_) => Ok(O::S(V::Bool(false))),
+            O::Amb(v) => {
+                if v == V::Blank {
+                    unspec("ISBLANK of an IF/IFERROR result that may be an empty reference")
+                } else {
+                    Ok(O::S(V::Bool(false)))
+                }
+            }
+            _ => unspec("ISBLANK with a range or array argument"),
+        },
+        _ => unspec("function outside the core language"),
+    }
+}
+
+trait Pipe: Sized {
+    fn pipe<R>(self, f: impl FnOnce(Self) -> R) -> R {
+        f(self)
+    }
+}
+impl Pipe for V {}
+
+/// what the cell(s) must show: a scalar or a block
+enum Expect {
+    One(V),
+    Block(Vec<Vec<V>>),
+}
+
+fn settle(v: &V) -> V {
+    if *v == V::Blank {
+        V::Num(0.0)
+    } else {
+        v.clone()
+    }
+}
+
+fn expectation(t: &T) -> R<Expect> {
+    Ok(match eval(t)? {
+        O::S(V::Num(n)) if !n.is_finite() => Expect::One(V::Err("#NUM!")),
+        O::S(v) | O::Cell(v) | O::Amb(v) => Expect::One(settle(&v)),
+        O::Range(g) | O::Arr(g) => {
+            if g.len() == 1 && g[0].len() == 1 {
+                Expect::One(settle(&g[0][0]))
+            } else {
+                Expect::Block(g.iter().map(|r| r.iter().map(settle).collect()).collect())
+            }
+        }
+    })
+}
+
+// ---------------------------------------------------------------- running the real engine
+
+const FR: i32 = 1;
+const FC: i32 = 1;
+
+fn model_with_data() -> Result<Model<'static>, String> {
+    let mut m = Model::new_empty("m", "en", "UTC", "en")?;
+    for (i, d) in DATA_INPUT.iter().enumerate() {
+        if !d.is_empty() {
+            m.set_user_input(0, i as i32 + 1, 4, d.to_string())?;
+        }
+    }
+    Ok(m)
+}
+
+fn matches_val(exp: &V, got: &Val) -> bool {
+    match (exp, got) {
+        (V::Num(a), Val::Num(b)) => a == b || (a - b).abs() <= 1e-12 * a.abs().max(b.abs()),
+        (V::Str(a), Val::Str(b)) => a == b,
+        (V::Bool(a), Val::Bool(b)) => a == b,
+        (V::Err(a), Val::Err(b)) => *a == format!("{}", b),
+        (V::ErrAny, Val::Err(_)) => true,
+        _ => false,
+    }
+}
+
+/// what the engine shows for a formula: anchor role and the block A1:C8
+struct Seen {
+    text: String,
+    rejected: Option<String>,
+    shape: String,
+    cells: Vec<Vec<Val>>,
+}
+
+fn run_engine(t: &T) -> Result<Seen, String> {
+    let text = format!("={}", t.text());
+    let mut m = model_with_data()?;
+    if let Err(e) = m.set_user_input(0, FR, FC, text.clone()) {
+        return Ok(Seen { text, rejected: Some(e), shape: String::new(), cells: vec![] });
+    }
+    m.evaluate();
+    let shape = cell_shape(m.workbook.worksheets[0].cell(FR, FC));
+    let cells = (0..8).map(|i| (0..3).map(|j| cell_val(&m, 0, FR + i, FC + j)).collect()).collect();
+    Ok(Seen { text, rejected: None, shape, cells })
+}
+
+/// None = agrees, Some((expected kind, got kind, detail))
+fn mismatch(exp: &Expect, seen: &Seen) -> Option<(String, String, String)> {
+    let text = &seen.text;
+    if let Some(e) = &seen.rejected {
+        return Some(("accepted".into(), "input rejected".into(), e.clone()));
+    }
+    let anchor_shape = &seen.shape;
+    let got = &seen.cells[0][0];
+    match exp {
+        Expect::One(v) => {
+            let spilled = anchor_shape.starts_with("dyn") && anchor_shape != "dyn 1x1";
+            if !matches_val(v, got) || spilled {
+                return Some((
+                    v.kind(),
+                    if spilled { format!("array {}", &anchor_shape[4..]) } else { got.kind() },
+                    format!("`{}` expected {} but the cell shows {} [{}]", text, v.show(), got.show(), anchor_shape),
+                ));
+            }
+        }
+        Expect::Block(g) => {
+            let (h, w) = (g.len(), g[0].len());
+            let want_shape = format!("dyn {}x{}", w, h);
+            if *anchor_shape != want_shape || h > 8 || w > 3 {
+                return Some((
+                    format!("array {}x{}", w, h),
+                    if anchor_shape.starts_with("dyn") { format!("array {}", &anchor_shape[4..]) } else { got.kind() },
+                    format!("`{}` expected a {}x{} (columns x rows) array but the anchor is [{}] showing {}", text, w, h, anchor_shape, got.show()),
+                ));
+            }
+            for (i, row) in g.iter().enumerate() {
+                for (j, v) in row.iter().enumerate() {
+                    let got = &seen.cells[i][j];
+                    if !matches_val(v, got) {
+                        return Some((
+                            format!("element {}", v.kind()),
+                            format!("element {}", got.kind()),
+                            format!("`{}` element ({},{}) expected {} but the cell shows {}", text, i + 1, j + 1, v.show(), got.show()),
+                        ));
+                    }
+                }
+            }
+        }
+    }
+    None
+}
+
+fn expectation_with(t: &T, flags: u32) -> R<Expect> {
+    DEV.with(|d| d.set(flags));
+    let r = expectation(t);
+    DEV.with(|d| d.set(0));
+    r
+}
+
+/// Ok(None) agrees / Err unspecified / Ok(Some(..)) disagrees
+fn compare_with_engine(t: &T) -> Result<Option<(String, String, String, Seen)>, Unspec> {
+    let exp = expectation_with(t, 0)?;
+    let seen = run_engine(t).map_err(|e| format!("harness: {}", e))?;
+    Ok(mismatch(&exp, &seen).map(|(a, b, c)| (a, b, c, seen)))
+}
+
+/// smallest set of known deviations under which the reference evaluator reproduces what the engine shows
+fn explain(t: &T, seen: &Seen) -> Option<Vec<u32>> {
+    let flags: Vec<u32> = DEVIATIONS.iter().map(|d| d.0).collect();
+    let n = flags.len();
+    let agrees = |f: u32| -> bool {
+        match expectation_with(t, f) {
+            Ok(e) => mismatch(&e, seen).is_none(),
+            Err(_) => false,
+        }
+    };
+    for i in 0..n {
+        if agrees(flags[i]) {
+            return Some(vec![flags[i]]);
+        }
+    }
+    for i in 0..n {
+        for j in i + 1..n {
+            if agrees(flags[i] | flags[j]) {
+                return Some(vec![flags[i], flags[j]]);
+            }
+        }
+    }
+    for i in 0..n {
+        for j in i + 1..n {
+            for k in j + 1..n {
+                if agrees(flags[i] | flags[j] | flags[k]) {
+                    return Some(vec![flags[i], flags[j], flags[k]]);
+                }
+            }
+        }
+    }
+    None
+}
+
+fn arg_class(t: &T) -> String {
+    match t {
+        T::Leaf(i) => LEAVES[*i].1.to_string(),
+        other => match eval(other) {
+            Ok(O::S(v)) | Ok(O::Cell(v)) | Ok(O::Amb(v)) => format!("expr:{}", if v.is_err() { "err".to_string() } else { v.kind() }),
+            Ok(_) => "expr:array".into(),
+            Err(_) => "expr:unspecified".into(),
+        },
+    }
+}
+
+/// Judge one term; on disagreement blame the smallest disagreeing sub-term.
+fn judge(t: &T) -> (Vec<Disagreement>, bool) {
+    let r = guarded(|| compare_with_engine(t));
+    match r {
+        Err(p) => (
+            vec![Disagreement {
+                sig: format!("panic at={} head={}", p.rsplit(" @ ").next().unwrap_or(""), t.head()),
+                case: json!({"term": t.to_json(), "text": t.text()}),
+                detail: p,
+            }],
+            false,
+        ),
+        Ok(Err(_)) => (vec![], true),
+        Ok(Ok(None)) => (vec![], false),
+        Ok(Ok(Some((ek, gk, detail, seen)))) => {
+            // smallest failing sub-term first
+            for c in t.children() {
+                if !matches!(c, T::Leaf(_)) {
+                    if let Ok(Ok(Some(_))) = guarded(|| compare_with_engine(c)) {
+                        return judge(c);
+                    }
+                }
+            }
+            let case = json!({"term": t.to_json(), "text": t.text()});
+            if let Some(fs) = explain(t, &seen) {
+                let names: Vec<&str> = fs.iter().map(|f| DEVIATIONS.iter().find(|d| d.0 == *f).map(|d| d.1).unwrap_or("?")).collect();
+                return (
+                    names
+                        .iter()
+                        .map(|n| Disagreement {
+                            sig: format!("known deviation: {}", n),
+                            case: case.clone(),
+                            detail: format!("{}\nreproduced by the reference evaluator with the deviation(s): {}", detail, names.join(" + ")),
+                        })
+                        .collect(),
+                    false,
+                );
+            }
+            let classes: Vec<String> = t.children().iter().map(|c| arg_class(c)).collect();
+            (vec![Disagreement { sig: format!("{} args=({}) expected={} got={}", t.head(), classes.join(","), ek, gk), case, detail }], false)
+        }
+    }
+}
+
+// ---------------------------------------------------------------- enumeration
+
+fn depth1(leaves: &[usize], with_ternary: bool, ternary_leaves: &[usize]) -> Vec<T> {
+    let mut out = vec![];
+    let leaf = |i: &usize| T::Leaf(*i);
+    for op in UN_OPS {
+        for a in leaves {
+            out.push(T::Un(op, Box::new(leaf(a))));
+        }
+    }
+    for op in BIN_OPS {
+        for a in leaves {
+            for b in leaves {
+                out.push(T::Bin(op, Box::new(leaf(a)), Box::new(leaf(b))));
+            }
+        }
+    }
+    for (name, arities) in FUNCS.iter() {
+        for ar in arities.iter() {
+            match ar {
+                1 => {
+                    for a in leaves {
+                        out.push(T::Fn(name, vec![leaf(a)]));
+                    }
+                }
+                2 => {
+                    for a in leaves {
+                        for b in leaves {
+                            out.push(T::Fn(name, vec![leaf(a), leaf(b)]));
+                        }
+                    }
+                }
+                3 if with_ternary => {
+                    for a in ternary_leaves {
+                        for b in ternary_leaves {
+                            for c in ternary_leaves {
+                                out.push(T::Fn(name, vec![leaf(a), leaf(b), leaf(c)]));
+                            }
+                        }
+                    }
+                }
+                _ => {}
+            }
+        }
+    }
+    out
+}
+
+/// depth-2 terms: a root whose one child is a depth-1 term over `leaves` and whose other children are leaves
+fn depth2(leaves: &[usize]) -> Vec<T> {
+    let inner = depth1(leaves, false, &[]);
+    let mut out = vec![];
+    let leaf = |i: &usize| T::Leaf(*i);
+    for x in &inner {
+        for op in UN_OPS {
+            out.push(T::Un(op, Box::new(x.clone())));
+        }
+        for op in BIN_OPS {
+            for b in leaves {
+                out.push(T::Bin(op, Box::new(x.clone()), Box::new(leaf(b))));
+                out.push(T::Bin(op, Box::new(leaf(b)), Box::new(x.clone())));
+            }
+        }
+        for (name, arities) in FUNCS.iter() {
+            if arities.contains(&1) {
+                out.push(T::Fn(name, vec![x.clone()]));
+            }
+            if arities.contains(&2) {
+                for b in leaves {
+                    out.push(T::Fn(name, vec![x.clone(), leaf(b)]));
+                    out.push(T::Fn(name, vec![leaf(b), x.clone()]));
+                }
+            }
+        }
+        for b in leaves {
+            for c in leaves {
+                out.push(T::Fn("IF", vec![x.clone(), leaf(b), leaf(c)]));
+            }
+        }
+    }
+    out
+}
+
+pub fn run(run: &mut Run) {
+    crate::cellval::keep_freed_memory();
+    let thorough = run.tier.thorough();
+    let all: Vec<usize> = (0..LEAVES.len()).collect();
+    let reduced: &[usize] = if thorough { &L_THOROUGH } else { &L_QUICK };
+    let mut terms = depth1(&all, true, &L_THOROUGH);
+    let n1 = terms.len();
+    terms.extend(depth2(reduced));
+    let n2 = terms.len() - n1;
+    let chunk = 512;
+    let n_units = terms.len().div_ceil(chunk);
+    let res = crate::env::par_units(n_units, |u| {
+        let mut ds = vec![];
+        let mut unspecified = 0u64;
+        let mut kinds: BTreeSet<String> = BTreeSet::new();
+        let mut nontrivial = 0u64;
+        for t in terms.iter().skip(u * chunk).take(chunk) {
+            let (d, un) = judge(t);
+            ds.extend(d);
+            if un {
+                unspecified += 1;
+            } else {
+                // a case is non-trivial when a coercion, a cross-type comparison, an error or an array is involved
+                let classes: Vec<String> = t.children().iter().map(|c| arg_class(c)).collect();
+                if classes.iter().any(|c| c != "num") {
+                    nontrivial += 1;
+                }
+                if let Ok(e) = expectation(t) {
+                    kinds.insert(match e {
+                        Expect::One(v) => format!("{}|{}", t.head(), v.kind()),
+                        Expect::Block(g) => format!("{}|array{}x{}", t.head(), g[0].len(), g.len()),
+                    });
+                }
+            }
+        }
+        (ds, unspecified, kinds, nontrivial)
+    });
+    let mut outcomes: BTreeSet<String> = BTreeSet::new();
+    let mut unspecified = 0u64;
+    for r in res {
+        match r {
+            Ok((ds, un, kinds, nt)) => {
+                run.add_all(ds);
+                unspecified += un;
+                outcomes.extend(kinds);
+                run.nontrivial += nt;
+            }
+            Err(e) => run.machinery_errors.push(format!("unit panicked: {}", e)),
+        }
+    }
+    run.evaluations = terms.len() as u64;
+    run.states = terms.len() as u64;
+    run.traces = terms.len() as u64 - unspecified;
+    run.transitions = (terms.len() as u64 - unspecified) * 2;
+    run.distinct_outcomes = outcomes.len() as u64;
+    run.extra.insert("unspecified_not_compared".into(), json!(unspecified));
+    run.extra.insert("depth1_terms".into(), json!(n1));
+    run.extra.insert("depth2_terms".into(), json!(n2));
+    run.rule = "a compared formula is non-trivial when at least one operand is not a plain number (coercion, cross-type comparison, error, blank, reference, range or array involved)".into();
+    run.bound = json!({"leaves": LEAVES.iter().map(|l| l.0).collect::<Vec<_>>(), "data_block_D1:D7": DATA_INPUT,
+        "unary": UN_OPS, "binary": BIN_OPS, "functions": FUNCS.iter().filter(|f| !f.1.is_empty()).map(|f| json!({"name": f.0, "arities": f.1})).collect::<Vec<_>>(),
+        "ternary_leaves": L_THOROUGH.iter().map(|i| LEAVES[*i].0).collect::<Vec<_>>(),
+        "depth2_leaves": reduced.iter().map(|i| LEAVES[*i].0).collect::<Vec<_>>(),
+        "depth2_shape": "root (unary, binary, function of arity 1-2, IF) with exactly one depth-1 child (unary, binary, function of arity 1-2) and leaf siblings"});
+    for i in [7usize, n1 / 2, n1 + n2 / 3] {
+        if let Some(t) = terms.get(i) {
+            run.sample(json!({"term": t.to_json(), "text": t.text()}));
+        }
+    }
+    run.exhaustive = true;
+    run.assume("the reference evaluator encodes the spreadsheet rules named by the property; where a rule is not pinned (0^0, negative base with fractional exponent, text that may be a date or currency, numbers equal within display precision, arrays of different sizes, scalar functions over ranges, IF/IFERROR results that may be references, very large or small numbers as text) it answers unspecified and nothing is compared");
+    run.assume("language and locale en; formula in A1, data block D1:D7; numbers compare with relative tolerance 1e-12");
+}
+
+pub fn replay(case: &Value) -> Vec<Disagreement> {
+    match T::from_json(&case["term"]) {
+        Some(t) => judge(&t).0,
+        None => vec![],
+    }
 }
